@@ -26,7 +26,7 @@ BatchOps ==
       O("slice_0_0", "select", <<>>), O("slice_from_end", "select", <<>>), O("list_empty", "select", <<>>), O("bool_mask_000", "select", <<>>),
       O("narrow_0_1_0", "select", <<>>), O("cat_empty_front", "same", <<0>>),
       \* the classes' own batch constructors / combinators
-      O("from_images_20", "select", <<2, 0>>), O("append_self", "concat_self", <<0>>), O("append_other", "concat_other", <<4, 5>>),
+      O("from_images_20", "select", <<2, 0>>), O("from_images_1", "select", <<1>>), O("append_self", "concat_self", <<0>>), O("append_other", "concat_other", <<4, 5>>),
       O("ellipsis_mid", "select", <<1, 2>>),
       O("slice_1_3_chan_0_1", "selchan", <<1, 1, 2>>), O("list_20_chan_0_1", "selchan", <<1, 2, 0>>), O("mask_101_chan_0_1", "selchan", <<1, 0, 2>>),
       O("slice_step2_chan_ellipsis", "selchan", <<1, 0, 2>>),
